@@ -22,7 +22,7 @@ RULE = ("case = (format, history, target prefix, dropped record set, ending sequ
 CASES = {"quick": 96, "thorough": 1500}
 BUDGET_S = {"quick": 50, "thorough": 800}
 MIN_EVALS = {"quick": 30, "thorough": 400}
-FLOORS = {"abort_unchanged": 8, "resume_commit_equals_twin": 8, "incomplete_refused": 8}
+FLOORS = {"abort_unchanged": 8, "resume_commit_equals_twin": 8, "incomplete_refused": 8, "second_round_inserted": 4}
 ASSUMPTIONS = ["'incomplete' is generated only in the unambiguous classes: a text record, an inventory record (or a CHK page) of a streamed revision dropped while its revision record is kept",
                "dropping only revision records (orphan inventories/texts) is not judged beyond 'no corruption'"]
 
@@ -165,7 +165,8 @@ def case(ctx):
 
     # what to drop
     drop_class = rng.choice(["none", "none", "none", "text", "inventory", "text"])
-    ending = rng.choice(["abort", "commit", "suspend-resume-commit", "suspend-resume-abort", "suspend-resume-suspend-resume-commit", "abortfaulted", "abortfaulted"]) if drop_class == "none" else \
+    ending = rng.choice(["abort", "commit", "suspend-resume-commit", "suspend-resume-abort", "suspend-resume-suspend-resume-commit", "abortfaulted", "abortfaulted",
+                         "split-suspend-resume-more-suspend-resume-commit", "split-suspend-resume-more-suspend-resume-commit"]) if drop_class == "none" else \
         rng.choice(["commit", "suspend-resume-commit", "suspend-resume-complete-commit"])
     if drop_class == "inventory" and "complete" in ending and fmt == "2a":
         ending = "suspend-resume-commit"  # (a CHK inventory cannot be completed by re-sending one record)
@@ -206,6 +207,17 @@ def case(ctx):
     ctx.hist("ending:%s/%s" % (ending, drop_class))
 
     steps = ending.split("-")
+    first_tip, first_want = tip, set()
+    if steps[0] == "split":
+        # the data arrives in two rounds with a suspend/resume in between: two packs, two resume tokens
+        steps = steps[1:]
+        with source.lock_read():
+            mids = [q for q in source.get_parent_map([tip]).get(tip, ()) if q in want]
+        if mids:
+            first_tip = rng.choice(mids)
+            ctx.count("split_groups")
+        else:
+            steps = [x for x in steps if x != "more"]
     t = _open(tpath)
     t.lock_write()
     t.start_write_group()
@@ -214,7 +226,7 @@ def case(ctx):
     outcome = None
     try:
         try:
-            _insert(t, source, tip, have, drop, {})
+            first_want, _ = _insert(t, source, first_tip, have, drop, {})
         except Exception as e:
             if not drop:
                 raise
@@ -276,6 +288,9 @@ def case(ctx):
                 t.lock_write()
                 locked = True
                 t.resume_write_group(tokens)
+            elif st == "more":
+                _insert(t, source, tip, set(have) | set(first_want), set(), {}, is_resume=True)
+                ctx.count("second_round_inserted")
             elif st == "complete":
                 # what a real client does with the sink's missing keys: send the missing records
                 with source.lock_read():
